@@ -2,7 +2,8 @@
 
 exit 0  every obligation of the property's claimed clauses discharged (known findings listed)
 exit 1  VIOLATION property=<id> replay=<path>
-exit 2  ANALYSIS-ERROR (parse failure, vanished anchor, instance floor, self-test failure)
+exit 2  ANALYSIS-ERROR (parse failure, vanished anchor, instance floor, self-test failure, undecided instance,
+        verdict that changes under a behaviour-preserving rewrite of the tree)
 """
 
 from __future__ import annotations
@@ -16,7 +17,7 @@ import time
 import traceback
 
 from .pm import PM, AnalysisError
-from .report import Checker, finish
+from .report import Checker, finish, verdict
 
 
 def run_property(prop: str, tier: str, repo: str | None = None) -> Checker:
@@ -34,6 +35,7 @@ def main(argv=None) -> int:
     ap.add_argument("--replay", default=None)
     ap.add_argument("--repo", default=None)
     ap.add_argument("--no-selftest", action="store_true")
+    ap.add_argument("--no-metamorphic", action="store_true")
     a = ap.parse_args(argv)
     seed = int(os.environ.get("VERIF_SEED", "0") or 0)
     t0 = time.time()
@@ -57,8 +59,54 @@ def main(argv=None) -> int:
         return 2
 
 
+def _mm_worker(job):
+    """one behaviour-preserving rewrite of the tree under analysis, re-analysed with the property's rules"""
+    prop, repo, tname = job
+    import shutil
+
+    from .metamorphic import rewrite_tree
+
+    tmp = None
+    try:
+        tmp = rewrite_tree(repo, tname)
+        rc, keys = verdict(run_property(prop, "quick", tmp))
+        return tname, rc, keys, None
+    except AnalysisError as e:
+        return tname, 2, [], str(e)
+    except Exception as e:  # the rewrite or the analysis failed on this spelling: reported, never a violation
+        return tname, 2, [], f"{type(e).__name__}: {e}"
+    finally:
+        if tmp:
+            shutil.rmtree(tmp, ignore_errors=True)
+
+
+def metamorphic_pass(chk: Checker, repo: str | None) -> dict:
+    """thorough tier: the verdict must not depend on how the code is spelt.  The tree under analysis is rewritten by
+    each of the behaviour-preserving transformations of xsa.metamorphic (and by all of them together) and the
+    property's rules are run again on each rewritten tree."""
+    import multiprocessing as mp
+
+    from .metamorphic import TRANSFORMS
+
+    base_rc, base_keys = verdict(chk)
+    names = list(TRANSFORMS) + ["all"]
+    with mp.get_context("fork").Pool(min(16, len(names))) as pool:
+        res = pool.map(_mm_worker, [(chk.prop, chk.pm.repo if repo is None else repo, t) for t in names])
+    per = {t: {"exit": rc, "violating": [list(k) for k in keys], **({"error": err} if err else {})} for t, rc, keys, err in res}
+    return {
+        "base_exit": base_rc,
+        "transformations": len(names),
+        "same_verdict": sum(1 for v in per.values() if v["exit"] == base_rc),
+        "per_transformation": per,
+    }
+
+
 def finish_with_selftest(chk: Checker, t0, seed, a, extra) -> int:
     st = None
+    mm = None
+    if a.tier == "thorough" and not a.replay and not a.no_metamorphic:
+        mm = metamorphic_pass(chk, a.repo)
+        extra["metamorphic"] = mm
     if a.tier == "thorough" and not a.no_selftest and not a.replay:
         from . import selftest, enginetest
 
@@ -70,6 +118,16 @@ def finish_with_selftest(chk: Checker, t0, seed, a, extra) -> int:
         extra["selftest"] = st["summary"]
         extra["selftest_cases"] = st["cases"]
     rc = finish(chk, t0, seed, extra)
+    if mm is not None:
+        print(f"metamorphic: {mm['same_verdict']}/{mm['transformations']} behaviour-preserving rewrites of the tree give the same verdict (exit {mm['base_exit']})")
+        for t, v in mm["per_transformation"].items():
+            if v["exit"] != mm["base_exit"]:
+                print(f"METAMORPHIC-MISMATCH rewrite={t} exit={v['exit']} (tree itself: {mm['base_exit']}) {v.get('error') or v['violating'][:4]}")
+        if rc == 0 and any(v["exit"] != 0 for v in mm["per_transformation"].values()):
+            # the rewrites execute exactly like the tree: a rule that fires on one of them either missed the same
+            # defect on the tree as written or depends on spelling - the instance is undecided, not a violation
+            print(f"ANALYSIS-ERROR property={chk.prop}: the verdict depends on how the code is spelt (see METAMORPHIC-MISMATCH lines)")
+            rc = 2
     if st is not None:
         for f in st.get("stale", []):
             print(f"SELFTEST-STALE (tree differs from the one the corpus was validated on) {f}")
